@@ -73,6 +73,36 @@ macro_rules! parts {
 }
 
 static SYS: LockStep = LockStep { property: "C04", probes: true, seed: None };
+static SYS_MED: LockStep = LockStep { property: "C04", probes: false, seed: None };
+
+fn alpha_medium(cfg: &Cfg) -> Vec<Op> {
+    let mut v = alpha(cfg);
+    for n in [3u32, 5, 7, 12, 255, 256, 257] {
+        v.push(c(Rep(Some(n))));
+    }
+    v.push(t("hello, world"));
+    v.push(c(Cup(Some(3), Some(4))));
+    v.push(c(Cup(Some(4), Some(6))));
+    v.push(c(Decstbm(Some(2), Some(4))));
+    v.push(c(Decstbm(Some(3), Some(4))));
+    v
+}
+
+fn medium_part(tier: Tier) -> Part<'static, LockStep> {
+    Part {
+        name: "print-lockstep-medium-screen",
+        sys: &SYS_MED,
+        cfgs: match tier {
+            Tier::Quick => cfgs(&[(6, 5)], &[None]),
+            Tier::Thorough => cfgs(&[(6, 5), (7, 6)], &[None]),
+        },
+        alphabet: &alpha_medium,
+        depth: tier.pick(4, 5),
+        seconds: tier.pick(20.0, 1800.0),
+        validated: true,
+        nontrivial: Some("lockstep_transitions"),
+    }
+}
 
 /// Full translation table: 0x20..0x7f x {Ascii, Drawing} x {G0, G1 active}.
 fn charset_table(ctx: &Ctx, rep: &mut Report) {
@@ -145,6 +175,7 @@ pub fn run(ctx: &Ctx) -> Report {
     let mut rep = Report::new();
     let p = parts!(ctx.tier, &SYS);
     run_part(ctx, &mut rep, &p);
+    run_part(ctx, &mut rep, &medium_part(ctx.tier));
     charset_table(ctx, &mut rep);
     rep.rule = "lock-step BFS of (real Vt, reference terminal) over single printable chars (ASCII, drawing range, DEL, Latin-1, CJK, space), a 2-char text, REP with counts around the width, DECAWM/IRM toggles, SO/SI, G0/G1 designations, and setup ops (cursor placement incl. last column and rows below the bottom margin, margins, pen, resizes); full grid, scrollback, cursor, hidden modes and the wrap mark of the row left by a wrap are compared after every transition; plus the complete 0x20-0x7f x charset x slot translation table".into();
     rep.assumptions = vec!["readings R1-R7 of DESIGN.md §3.2 (R3: wrap on the last row below the bottom margin does not scroll and does not mark)".into()];
@@ -158,6 +189,9 @@ pub fn replay(ctx: &Ctx, v: &Value) -> bool {
         return rep.violations > 0;
     }
     let tier = if v["tier"] == "thorough" { Tier::Thorough } else { Tier::Quick };
+    if v["part"] == "print-lockstep-medium-screen" {
+        return replay_part(ctx, &medium_part(tier), v);
+    }
     let p = parts!(tier, &SYS);
     replay_part(ctx, &p, v)
 }
